@@ -181,6 +181,7 @@ class SolverCtx:
         self.n = 0
         self.divmemo = {}
         self.bydiv = {}
+        self.qsrc = {}
         self.bounds = {}
         self.pinned = []
         self.icache = {}
@@ -386,6 +387,20 @@ class SolverCtx:
         key = (tid(n), tid(d))
         if key in self.divmemo:
             return self.divmemo[key][0]
+        # floor(floor(a/b)/c) = floor(a/(b*c)) for non-negative a and positive b, c
+        if is_sym(n) and is_conc(d) and d > 0:
+            src = self.qsrc.get(n.get_id())
+            if src is not None:
+                n0, d0 = src
+                # cancel the constant: floor((k*m)/(d0*k)) = floor(m/d0)
+                ex = _exact_div(n0, d)
+                if ex is not None:
+                    r_ = self.fdiv(ex, d0)
+                    self.divmemo[key] = (r_, None, n, d)
+                    return r_
+                r_ = self.fdiv(n0, simp(d0 * d))
+                self.divmemo[key] = (r_, None, n, d)
+                return r_
         # exact division of a constant factor: (k*t)/d with d | k
         if is_conc(d) and d > 0:
             ex = _exact_div(n, d)
@@ -414,13 +429,17 @@ class SolverCtx:
                             z3.Implies(n2 - zn == zd, z3.And(q2 == q + 1, r == r2))))
         self.bydiv.setdefault(dk, []).append((q, r, zn))
         self.divmemo[key] = (q, r, n, d)
+        self.qsrc[q.get_id()] = (n, d)
         return q
 
     def fmod(self, n, d):
         if is_conc(n) and is_conc(d):
             return n % d
-        self.fdiv(n, d)
-        return self.divmemo[(tid(n), tid(d))][1]
+        q = self.fdiv(n, d)
+        r = self.divmemo[(tid(n), tid(d))][1]
+        if r is None:
+            r = simp(n - q * d)
+        return r
 
     def isqrt(self, n):
         if is_conc(n):
